@@ -5,7 +5,7 @@ PROP = "C08"
 
 def gen(rng, tier):
     lines, meta = [], {}
-    n = 60 if tier == "quick" else 1500
+    n = 60 if tier == "quick" else 15000
     for k in range(n):
         mem, halt, multi = programs.gen_program(rng)
         programs.handlers(mem, rng)
@@ -25,7 +25,7 @@ def gen(rng, tier):
         lines.append(programs.run_line(cid, st, mem, bps=bps, nruns=rng.choice([1, 2, 3]), trig=trig, inputs=[rng.below(256) for _ in range(8)]))
         meta[cid] = ("run", "bps=%s trig=%s" % (bps, trig[0]))
     # addresses reached via wrap-around, HALT at 0xFFFF, break point on an interrupt vector
-    for k in range(12 if tier == "quick" else 200):
+    for k in range(12 if tier == "quick" else 1500):
         st = programs.start_state(rng, iff=1, im=1)
         st["PC"] = 0xFFFC
         mem = {0xFFFC: 0x3C, 0xFFFD: 0x3C, 0xFFFE: rng.choice([0x00, 0x3C]), 0xFFFF: rng.choice([0x76, 0x00, 0x3C]), 0x0000: 0x3C, 0x0001: 0x76, 0x38: 0x76}
